@@ -210,6 +210,11 @@ def lookups(ctx, w, script):
     g = w.g
 
     def rnd():
+        if rng.random() < 0.06:
+            # ranges with more members than fit a machine word
+            a = rng.choice([0, -3, 2**63, 2])
+            st = rng.choice([1, 1, 2, 3])
+            return (a, 2**64, st), range(a, 2**64, st)
         if rng.random() < 0.5:
             p = rng.randrange(-1, 16)
             return (p, p + 1, 1), p
@@ -254,7 +259,12 @@ def lookups(ctx, w, script):
     for owner, members in ((w.sec, [b for b in w.bis if b.section is w.sec]),
                            (w.mod, list(w.bis)), (w.ir, list(w.bis))):
         rg, arg = rnd()
-        res = list(owner.symbolic_expressions_at(arg))
+        try:
+            res = list(owner.symbolic_expressions_at(arg))
+        except Exception as ex:   # noqa
+            return fail(ctx, script, "%s.symbolic_expressions_at(%s) raised "
+                        "%s: %s" % (type(owner).__name__, arg,
+                                    type(ex).__name__, ex))
         got = sorted((w.bis.index(b), k, w.eidx.get(id(e), 99))
                      for (b, k, e) in res)
         may, must = [], []
